@@ -17,11 +17,13 @@ from concurrent.futures import ThreadPoolExecutor
 from ..core import Check, MachineryFailure
 from .. import tlc, tracecheck
 from .. import impl_numerics as im
+from .. import impl_mathfns as mf
+from .. import impl_paths as ip
 
 PID = "C20"
 INVS = ["VpLoopIsRecurrence", "VpMechIsAbs", "VpShortcuts", "VpNonNegative", "VpIdentity", "VpSymmetry", "VpBounds",
         "VpMonotoneInCost", "VpTriangle", "IsiScanIsAbs", "IsiMechIsAbs", "IsiShape", "IsiReintegrates", "IpExact",
-        "IpRoundTrip", "LinBetween", "IpxRoundTrip"]
+        "IpRoundTrip", "IpAdjustAnchors", "LinBetween", "IpxRoundTrip"]
 VSCALE = 12.0
 
 
@@ -113,16 +115,18 @@ def replay_tables(chk: Check, t, rng, report=None, corrupt=False) -> int:
             chk.nontrivial.add(("isi", json.dumps(r["ras"])))
     pairs = {}
     for r in t["ip"]:
-        pairs.setdefault((r["i"], r["x"]), []).append(r)
+        pairs.setdefault((r["i"], r["x"], r["adj"]), []).append(r)
     DT = 4
-    for (i, x), recs in sorted(pairs.items()):
+    for (i, x, adj), recs in sorted(pairs.items()):
         if corrupt:
             recs = [dict(recs[0], val=recs[0]["val"] + 12)] + recs[1:]
+        site = f"interp_{i}/extrap_{x}" + (f"(adjust={adj})" if adj != "id" else "")
         for tick in (0.25, 0.5):
-            n += im.ip_check(recs, DT, tick, VSCALE, rep(f"interp_{i}/extrap_{x}"))
+            n += im.ip_check(recs, DT, tick, VSCALE, rep(site))
+            n += im.ip_record_check(recs, DT, tick, VSCALE, rep(site))
         if report is None:
             for r in recs:
-                chk.nontrivial.add(("ip", i, x, r["sample"], r["prev"], r["next"], r["t"]))
+                chk.nontrivial.add(("ip", i, x, adj, r["sample"], r["prev"], r["next"], r["t"]))
     n += im.ipx_check(t["ipx"], DT, 0.25, rep("interp_exp*/extrap_exp*"))
     if report is None:
         chk.evaluations += n
@@ -132,16 +136,20 @@ def replay_tables(chk: Check, t, rng, report=None, corrupt=False) -> int:
 
 # --------------------------------------------------------------------------- distributions
 def dist_traces(tier: str):
-    rates = [0.0, 0.125, 0.5, 1.0, 2.5, 4.0, 6.0] if tier == "quick" else [0.0, 0.125, 0.25, 0.5, 1.0, 1.5, 2.5, 3.0, 4.0, 5.0, 6.0]
-    norm = [(0.0, 1.0), (-1.5, 0.5), (2.0, 2.0), (0.25, 0.25)]
-    lognorm = [(0.0, 0.5), (0.5, 0.25), (-0.5, 0.5), (0.0, 1.0)]
+    """Parameter sets include every boundary of the documented valid domains: rate 0 (pmf is the
+    point mass at 0), support 0 and the far end, the smallest / largest scales the float32 grid can
+    carry, locations far from 0; each set is evaluated with scalar parameters and, once per trace,
+    with tensor parameters mixing the degenerate and the regular sets."""
+    rates = [0.0, 0.125, 0.5, 1.0, 2.5, 4.0, 6.0] if tier == "quick" else [0.0, 0.001, 0.125, 0.25, 0.5, 1.0, 1.5, 2.5, 3.0, 4.0, 5.0, 6.0]
+    norm = [(0.0, 1.0), (-1.5, 0.5), (2.0, 2.0), (0.25, 0.25), (0.0, 2.0 ** -10), (0.0, 1024.0), (-100.0, 64.0)]
+    lognorm = [(0.0, 0.5), (0.5, 0.25), (-0.5, 0.5), (0.0, 1.0), (0.0, 2.0 ** -5), (-3.0, 0.25)]
     if tier != "quick":
-        norm += [(5.0, 4.0), (-0.75, 0.125), (1.0, 8.0)]
-        lognorm += [(1.0, 0.25), (-1.0, 1.0), (0.25, 0.125)]
+        norm += [(5.0, 4.0), (-0.75, 0.125), (1.0, 8.0), (0.0, 2.0 ** -16), (3.0, 0.5)]
+        lognorm += [(1.0, 0.25), (-1.0, 1.0), (0.25, 0.125), (2.0, 2.0 ** -4)]
     hdr = lambda d: {"init": 0, "cfg": {"dist": d}, "waive": []}
-    return [{"hdr": hdr("Poisson"), "ev": [im.poisson_event(r, 32) for r in rates]},
-            {"hdr": hdr("Normal"), "ev": [im.cont_event("normal", l, s) for l, s in norm]},
-            {"hdr": hdr("LogNormal"), "ev": [im.cont_event("lognormal", l, s) for l, s in lognorm]}]
+    return [{"hdr": hdr("Poisson"), "ev": im.poisson_events(rates, 32)},
+            {"hdr": hdr("Normal"), "ev": im.cont_events("normal", norm)},
+            {"hdr": hdr("LogNormal"), "ev": im.cont_events("lognormal", lognorm)}]
 
 
 def validate_dists(chk: Check, traces, report=True):
@@ -171,25 +179,170 @@ def validate_dists(chk: Check, traces, report=True):
 
 
 def canary_dists(chk: Check, traces):
-    base = next((copy.deepcopy(e) for e in traces[0]["ev"] if not e["ret"]["errs"]), None)
-    if base is None:
-        # the implementation cannot produce a clean Poisson event (reported above): fabricate
-        # an exact one for rate 1
-        import math
-        p = [math.exp(-1) / math.factorial(k) for k in range(33)]
-        c = [sum(p[: k + 1]) for k in range(33)]
-        base = {"op": {"a": "poisson", "K": 32, "rate": 1.0},
-                "ret": {"errs": [], "den": im._q(p), "eld": im._q(p), "cdf": im._q(c), "elc": im._q(c),
-                        "mean": im.Q, "var": im.Q}, "st": 0}
+    import math
+    # an exact Poisson(1) table: independent of the implementation under test
+    p = [math.exp(-1) / math.factorial(k) for k in range(33)]
+    c = [sum(p[: k + 1]) for k in range(33)]
+    qz = lambda xs: [int(round(x * im.Q)) for x in xs]
+    base = {"op": {"a": "poisson", "K": 32, "rate": 1.0},
+            "ret": {"errs": [], "nonfinite": [], "den": qz(p), "eld": qz(p), "cdf": qz(c), "elc": qz(c), "denb": qz(p),
+                    "cdfb": qz(c), "mean": im.Q, "meanb": im.Q, "var": im.Q}, "st": 0}
     bad = copy.deepcopy(base)
     bad["ret"]["den"][2] += 60
+    bad["ret"]["denb"][2] += 60
+    nanev = copy.deepcopy(base)
+    nanev["ret"]["nonfinite"] = ["pmf"]
+    nanev["ret"]["den"][0] = 0
     hdr = {"init": 0, "cfg": {"dist": "canary"}, "waive": []}
-    stats, rej = tracecheck.validate("DistTrace", [{"hdr": dict(hdr), "ev": [base]}, {"hdr": dict(hdr), "ev": [bad]}],
-                                     shards=1, max_waive_rounds=1)
-    lines = {(r["trace"], r["line"]) for r in rej}
-    if (0, 1) in lines or (1, 1) not in lines:
-        raise MachineryFailure(f"canary: distribution laws accept a corrupted density / reject a clean one: {lines}")
-    chk.note("canary: a density with one corrupted value is rejected by the distribution laws, the clean one accepted")
+    stats, rej = tracecheck.validate("DistTrace", [{"hdr": dict(hdr), "ev": [base]}, {"hdr": dict(hdr), "ev": [bad]},
+                                                   {"hdr": dict(hdr), "ev": [nanev]}], shards=1, max_waive_rounds=1)
+    got = {r["trace"]: sorted((r["diag"] or {}).get("clauses", [])) for r in rej}
+    if 0 in got or 1 not in got or got.get(2) != ["Finite"]:
+        raise MachineryFailure(f"canary: distribution laws accept a corrupted / non-finite density or reject a clean one: {got}")
+    chk.note("canary: a corrupted density and a NaN observation are rejected by the distribution laws (DensitySumsToCdf.., Finite), the clean table accepted")
+
+
+# --------------------------------------------------------------------------- extension: MathFns
+MF_INVS = ["MechInAbs", "BagLaws", "GeoLaws", "GridLaws", "RescLaws", "NormLaws", "SmoothIsClosedForm", "HoltLaws", "KernLaws"]
+
+
+def mf_consts(tier):
+    if tier == "quick":
+        return dict(Machines={"bag", "geo", "grid", "resc", "sm", "kern"}, Vals={0, 1, 3}, LMax=3, GLen=3, SmLen=3, RBounds={0, 2})
+    return dict(Machines={"bag", "geo", "grid", "resc", "sm", "kern"}, Vals={0, 1, 3}, LMax=4, GLen=4, SmLen=4, RBounds={0, 1, 2})
+
+
+def mf_start(tier):
+    return tlc.run("MathFnsMC", tlc.cfg_text(constants=mf_consts(tier), invariants=MF_INVS), workers=4, timeout=3000)
+
+
+def mf_tables(chk: Check, tier: str):
+    res = tlc.run("MathFnsMC", tlc.cfg_text(constants=mf_consts(tier), invariants=["Emit"]), workers=1, timeout=3000)
+    if not res.ok:
+        raise MachineryFailure(f"TLC emission run (MathFns) failed: {res.out[-2000:]}")
+    chk.add_tlc("emit:mathfns", res)
+    t = {k: [] for k in ("bag", "geo", "grid", "resc", "sm", "kern")}
+    for rec in res.printed():
+        if isinstance(rec, dict) and len(rec) == 1:
+            (k, v), = rec.items()
+            if k in t:
+                t[k].append(v)
+    if not all(t.values()):
+        raise MachineryFailure(f"MathFns emission incomplete: { {k: len(v) for k, v in t.items()} }")
+    chk.note("emitted MathFns tables: " + ", ".join(f"{k}={len(v)}" for k, v in t.items()))
+    return t
+
+
+def mf_replay(chk: Check, t, report=True, corrupt=False) -> int:
+    hits = []
+
+    def rep(site):
+        def f(clause, detail):
+            hits.append(clause)
+            if report:
+                chk.violation({"clause": clause, "site": site, "family": "MathFns"}, detail)
+        return f
+
+    n = 0
+    red = rep("inferno.functional (dimension reductions)")
+    for i, r in enumerate(t["bag"]):
+        if corrupt and i == len(t["bag"]) // 2:
+            r = dict(r, res=dict(r["res"], mean=[[n_ + d_, d_] if d_ else [1, 1] for n_, d_ in r["res"]["mean"]]))
+        n += mf.bag_check(r, i, red)
+    for i, r in enumerate(t["geo"]):
+        n += mf.geo_check(r, i, red)
+    for i, r in enumerate(t["grid"]):
+        if corrupt and i == 3:
+            r = dict(r, shape0=r["shape1"], shape1=r["shape0"])
+        n += mf.grid_check(r, i, red)
+    resc = rep("inferno.rescale / inferno.normalize")
+    prev = {}
+    for i, r in enumerate(t["resc"]):
+        if corrupt and i == 7:
+            r = dict(r, out=[[a + b, b] if b else [1, 1] for a, b in r["out"]])
+        n += mf.resc_check(r, i, resc)
+        key = (len(r["b"]), r["rmin"], r["rmax"], r["smin"], r["smax"])
+        if key in prev and i % 5 == 0:
+            n += mf.resc_rows_check(prev[key], r, resc)
+        prev[key] = r
+    sm = rep("inferno.exponential_smoothing / holt_linear_smoothing")
+    for i, r in enumerate(t["sm"]):
+        if corrupt and i == 11:
+            r = dict(r, hlevel=r["hlevel"] + 16)
+        n += mf.sm_check(r, sm)
+    for r in t["kern"]:
+        n += mf.kern_check(r, rep("inferno.functional (spike-time kernels)"))
+    if report:
+        n += mf.documented_argument_forms(rep("inferno.functional (quantile family)"))
+        chk.evaluations += n
+        chk.traces += sum(len(v) for v in t.values())
+        for k, v in t.items():
+            for r in v:
+                chk.nontrivial.add(("mf", k, json.dumps(r.get("b", r.get("g", r.get("x", r.get("d")))), sort_keys=True),
+                                    json.dumps([r.get(z) for z in ("axes", "rmin", "rmax", "smin", "smax", "a4", "b4")])))
+    return len(hits)
+
+
+def mathfns_phase(chk: Check, tier: str, fut):
+    t = mf_tables(chk, tier)
+    mf_replay(chk, t)
+    if mf_replay(chk, {k: v[:40] for k, v in t.items()}, report=False, corrupt=True) < 4:
+        raise MachineryFailure("canary: corrupted MathFns tables were not noticed")
+    chk.note("canary: corrupted reduction / shape / rescale / smoothing tables disagree with the real functions")
+    chk.sample({"kind": "mathfns-bag", "record": {"b": t["bag"][-1]["b"], "res": t["bag"][-1]["res"]}})
+    res = fut.result()
+    if res.violated:
+        chk.violation({"clause": "MC:" + ",".join(res.violated), "site": "spec", "config": "mathfns"}, {"tlc_tail": res.out[-4000:]})
+    elif not res.ok:
+        raise MachineryFailure(f"TLC run mathfns did not complete: {res.out[-2000:]}")
+    chk.add_tlc("mc:mathfns", res)
+    chk.note(f"mc mathfns: {res.distinct} states, {res.generated} transitions, {res.wall:.1f}s")
+
+
+# --------------------------------------------------------------------------- extension: PathAlgebra
+PA_INVS = ["TypeOK", "RealignResolves", "RefusedExactlyWhen", "AliasesAgree"]
+
+
+def pa_consts(tier):
+    return dict(PLen=2 if tier == "quick" else 3, PLenLater=1 if tier == "quick" else 2)
+
+
+def pa_start(tier):
+    return tlc.run("PathAlgebraMC", tlc.cfg_text(constants=pa_consts(tier), invariants=PA_INVS), workers=2, timeout=3000)
+
+
+def paths_phase(chk: Check, tier: str, fut):
+    res = tlc.run("PathAlgebraMC", tlc.cfg_text(constants=pa_consts(tier), invariants=["Emit"]), workers=1, timeout=3000)
+    if not res.ok:
+        raise MachineryFailure(f"TLC emission run (PathAlgebra) failed: {res.out[-2000:]}")
+    recs = [r for r in res.printed() if isinstance(r, dict) and "table" in r]
+    if len(recs) != res.distinct:
+        raise MachineryFailure(f"PathAlgebra: {len(recs)} registries printed, TLC reports {res.distinct}")
+    chk.add_tlc("emit:paths", res)
+
+    def report(clause, detail):
+        chk.violation({"clause": clause, "site": "Cell.realign_attribute / Layer._realign_attribute", "family": "PathAlgebra"}, detail)
+
+    ns, ne, nc = ip.replay(recs, report)
+    chk.evaluations += ne + nc
+    chk.traces += ns
+    for r in recs:
+        for case in r["table"]:
+            chk.nontrivial.add(("pa", json.dumps(r["s"], sort_keys=True), case["c"], case["n"], ".".join(case["p"])))
+    chk.note(f"PathAlgebra: {ns} registries rebuilt on a real Layer, {ne} registry operations, {nc} (cell, path) cases realigned and resolved")
+    hits = []
+    ip.replay(recs[:1], lambda c, d: hits.append(c), corrupt=True)
+    if "Realign" not in hits:
+        raise MachineryFailure("canary: a corrupted realigned path was not noticed")
+    chk.note("canary: a corrupted realigned path disagrees with the real Cell")
+    chk.sample({"kind": "realign", "case": recs[0]["table"][7]})
+    mcres = fut.result()
+    if mcres.violated:
+        chk.violation({"clause": "MC:" + ",".join(mcres.violated), "site": "spec", "config": "paths"}, {"tlc_tail": mcres.out[-4000:]})
+    elif not mcres.ok:
+        raise MachineryFailure(f"TLC run paths did not complete: {mcres.out[-2000:]}")
+    chk.add_tlc("mc:paths", mcres)
+    chk.note(f"mc paths: {mcres.distinct} states, {mcres.generated} transitions, {mcres.wall:.1f}s")
 
 
 # --------------------------------------------------------------------------- run
@@ -200,8 +353,11 @@ def run(tier: str, seed: int) -> int:
                          "pairs x values x times). Distinct non-trivial case = a distinct emitted final state (pair of "
                          "trains, raster, kernel-pair argument tuple) evaluated on the real function, or a distinct "
                          "distribution parameter set validated by TLC.")
-    pool = ThreadPoolExecutor(max_workers=1)
+    pool = ThreadPoolExecutor(max_workers=3)
     fut = pool.submit(mc_start, tier)
+    fut_mf = pool.submit(mf_start, tier)
+    fut_pa = pool.submit(pa_start, tier)
+    chk.extra["kernel_keyword_arguments"] = im.signature_guard()
     t = emit_tables(chk, tier)
     replay_tables(chk, t, rng)
     chk.sample({"kind": "vp", "record": t["vp"][len(t["vp"]) // 2]})
@@ -216,6 +372,8 @@ def run(tier: str, seed: int) -> int:
     validate_dists(chk, traces)
     canary_dists(chk, traces)
     mc_account(chk, *fut.result())
+    mathfns_phase(chk, tier, fut_mf)
+    paths_phase(chk, tier, fut_pa)
     pool.shutdown()
     return chk.finish()
 
@@ -226,7 +384,7 @@ def replay(path: str) -> int:
     chk = Check(PID, "replay", 0)
     if sig["site"].startswith("inferno.stats"):
         op = rep["op"]
-        ev = im.poisson_event(op["rate"], op["K"]) if op["a"] == "poisson" else im.cont_event(op["a"], op["loc"], op["scale"], op["n"], int(round(op["hd"] * op["scale"])), op["sub"])
+        ev = im.poisson_events([op["rate"], 1.0], op["K"])[0] if op["a"] == "poisson" else im.cont_events(op["a"], [(op["loc"], op["scale"]), (0.0, 1.0)])[0]
         validate_dists(chk, [{"hdr": {"init": 0, "cfg": {"dist": sig["site"].split(".")[-1]}, "waive": []}, "ev": [ev]}])
     else:
         t = emit_tables(chk, "quick")
